@@ -49,6 +49,8 @@ def run(res, programs, tier):
             polarity.rule(res, P, P.name, "R03.6")
             from . import halftest
             halftest.rule(res, P, P.name, "R03.8")
+            from . import c06
+            c06.exact_laundering(res, P, P.name, "R03.4b")
 
 
 def _closure_negates_arg(P, cl):
